@@ -26,6 +26,8 @@ type labCfg struct {
 	ReqIDHdr  string   `json:"request_id_header,omitempty"`
 	TraceHdr  string   `json:"trace_header,omitempty"`
 	LogPlugin bool     `json:"logging_plugin"`
+	LogLevel  string   `json:"logging_level,omitempty"`
+	LogFormat string   `json:"logging_format,omitempty"`
 }
 
 type exchangeCase struct {
@@ -49,6 +51,10 @@ func genLab(t *rapid.T) labCfg {
 		c.ReqIDHdr, c.TraceHdr = "X-Correlation-Id", "x-b3-traceid"
 	}
 	c.LogPlugin = rapid.Bool().Draw(t, "logplugin")
+	// logging section: honoured by the real helios binary (binary-front labs); the in-process replica
+	// shares one process-global logger and takes no notice of it
+	c.LogLevel = rapid.SampledFrom([]string{"", "", "info", "debug", "debug", "warn", "error", "fatal"}).Draw(t, "loglevel")
+	c.LogFormat = rapid.SampledFrom([]string{"", "json", "text", "console"}).Draw(t, "logformat")
 	return c
 }
 
@@ -497,10 +503,11 @@ func TestC01Transparency(t *testing.T) {
 		n := rapid.IntRange(1, 4).Draw(rt, "exchanges")
 		// one lab in ten has the real helios binary as its front (cmd/helios's own handler composition
 		// and server construction) instead of the in-process replica of it
-		binary := os.Getenv("VERIF_HELIOS") != "" && rapid.IntRange(0, 9).Draw(rt, "binary_front") == 0
+		binary := os.Getenv("VERIF_HELIOS") != "" && rapid.IntRange(0, 9).Draw(rt, "binary_front") <= map[bool]int{true: 2, false: 0}[lc.LogLevel == "debug"]
 		l, err := lab.NewSocketLab(lc.Strategy, lab.SocketOpts{Backends: lc.Backends, BasePaths: lc.BasePaths, Binary: binary, Mutate: func(cfg *config.Config) {
 			cfg.Logging.RequestID.Enabled, cfg.Logging.Trace.Enabled = lc.ReqID, lc.Trace
 			cfg.Logging.RequestID.Header, cfg.Logging.Trace.Header = lc.ReqIDHdr, lc.TraceHdr
+			cfg.Logging.Level, cfg.Logging.Format = lc.LogLevel, lc.LogFormat
 			if lc.LogPlugin {
 				cfg.Plugins.Enabled = true
 				cfg.Plugins.Chain = []config.PluginConfig{{Name: "logging"}}
@@ -543,6 +550,9 @@ func TestC01Transparency(t *testing.T) {
 			labels := append([]string{lc.Strategy, "status-" + fmt.Sprint(ec.Resp.Status/100) + "xx", "resp-" + ec.Resp.Framing}, ec.labels...)
 			if binary {
 				labels = append(labels, "front=helios-binary")
+				if lc.LogLevel == "debug" {
+					labels = append(labels, "front=helios-binary/debug-logging")
+				}
 			}
 			sub.Case(map[string]any{"lab": lc, "binary_front": binary, "exchange": ec}, !trivial(ec), labels...)
 			if viol != "" {
